@@ -15,6 +15,8 @@ import (
 	"strings"
 	"time"
 
+	"github.com/ryogrid/SamehadaDB/lib/verifshim/vsched"
+
 	"verif/core"
 )
 
@@ -30,6 +32,14 @@ type c12Call struct {
 type c12Scenario struct {
 	Name    string
 	Clients [][]*Stmt
+	// Cap > 0: the scheduler models the request channel (real capacity 100) with this capacity - the size
+	// parameter of the "reply is ready before its caller finished the wake-up send" deadlock class, which
+	// needs capacity+2 clients. Free/Bound override the tier's bounds for these small scenarios.
+	Cap, Free, Bound int
+	NoPreempt        bool // preemption bound 0: only the choices at points where the running thread blocked or ended
+	// Directed: one directed schedule with the REAL capacity (validation of what the small-capacity search
+	// finds): client1 stops before its wake-up send, everybody else runs by priority, client1 goes last.
+	Directed bool
 }
 
 func c12Seed() []*Stmt {
@@ -48,14 +58,31 @@ func c12Scenarios(thorough bool) []*c12Scenario {
 		return &Stmt{Kind: "update", Table: "t", Set: []SetItem{{"v", tag}}, Where: And{Leaf{"k", ">=", k(lo)}, Leaf{"k", "<=", k(hi)}}}
 	}
 	out := []*c12Scenario{
-		{"update[1,3]||read[2,4]", [][]*Stmt{{up("u1", 1, 3)}, {rd(2, 4)}}},
-		{"update[1,3]||update[2,4]", [][]*Stmt{{up("u1", 1, 3)}, {up("u2", 2, 4)}}},
-		{"update;read||update", [][]*Stmt{{up("u1", 1, 2), rd(1, 4)}, {up("u2", 2, 3)}}},
+		{Name: "update[1,3]||read[2,4]", Clients: [][]*Stmt{{up("u1", 1, 3)}, {rd(2, 4)}}},
+		{Name: "update[1,3]||update[2,4]", Clients: [][]*Stmt{{up("u1", 1, 3)}, {up("u2", 2, 4)}}},
+		{Name: "update;read||update", Clients: [][]*Stmt{{up("u1", 1, 2), rd(1, 4)}, {up("u2", 2, 3)}}},
 	}
+	// request-channel flood: capacity+2 clients with one cheap read each
+	flood := func(n int) [][]*Stmt {
+		var cl [][]*Stmt
+		for i := 0; i < n; i++ {
+			cl = append(cl, []*Stmt{rd(1+i%4, 1+i%4)})
+		}
+		return cl
+	}
+	out = append([]*c12Scenario{
+		{Name: "flood/real-capacity100/102clients/directed", Clients: flood(102), Directed: true},
+		{Name: "flood/capacity1/3clients/no-preemption", Clients: flood(3), Cap: 1, Free: 3, NoPreempt: true},
+		{Name: "flood/capacity2/4clients/no-preemption", Clients: flood(4), Cap: 2, Free: 4, NoPreempt: true},
+		// one-row statements keep the schedule space small enough for two preemptions in the quick tier (an
+		// abort result that arrives after the winner's result needs two)
+		{Name: "update[2]||update[2]/2-preemptions", Clients: [][]*Stmt{{up("u1", 2, 2)}, {up("u2", 2, 2)}}, Bound: 2, Free: 1},
+	}, out...)
 	if thorough {
 		out = append(out,
-			&c12Scenario{"update||update||read", [][]*Stmt{{up("u1", 1, 3)}, {up("u2", 2, 4)}, {rd(1, 4)}}},
-			&c12Scenario{"read;update||update;read", [][]*Stmt{{rd(1, 2), up("u1", 2, 3)}, {up("u2", 1, 2), rd(2, 3)}}})
+			&c12Scenario{Name: "flood/capacity1/3clients", Clients: flood(3), Cap: 1, Free: 3, Bound: 1},
+			&c12Scenario{Name: "update||update||read", Clients: [][]*Stmt{{up("u1", 1, 3)}, {up("u2", 2, 4)}, {rd(1, 4)}}},
+			&c12Scenario{Name: "read;update||update;read", Clients: [][]*Stmt{{rd(1, 2), up("u1", 2, 3)}, {up("u2", 1, 2), rd(2, 3)}}})
 	}
 	return out
 }
@@ -73,12 +100,31 @@ func (sc *c12Scenario) describe() string {
 }
 
 func (sc *c12Scenario) build(bound int) *core.Scenario {
+	free := c12Free(bound, len(sc.Clients))
+	if sc.Bound > 0 {
+		bound = sc.Bound
+	}
+	if sc.NoPreempt {
+		bound = 0
+	}
+	if sc.Free > 0 {
+		free = sc.Free
+	}
 	return &core.Scenario{
 		Name:      "c12/" + sc.Name,
 		Bound:     bound,
-		FreeBound: c12Free(bound, len(sc.Clients)),
+		FreeBound: free,
 		Params: sc.Name,
 		Setup: func() *core.Harness {
+			vsched.CapOverride = nil
+			if sc.Cap > 0 {
+				vsched.CapOverride = func(c int) int {
+					if c == 100 {
+						return sc.Cap
+					}
+					return c
+				}
+			}
 			dir := NewDir("c12")
 			db, f := OpenDBKeepSpawns(dir+"/d", 128)
 			if f != nil {
@@ -161,11 +207,54 @@ func (sc *c12Scenario) build(bound int) *core.Scenario {
 				return nil, label
 			}
 			h.Cleanup = func() {
+				vsched.CapOverride = nil
 				db.Kill()
 				removeAll(dir)
 			}
+			if sc.Directed {
+				h.Chooser = c12DirectedChooser(len(sc.Clients))
+			}
 			return h
 		},
+	}
+}
+
+// c12DirectedChooser: client1 runs first, up to (not including) its wake-up send; from then on the
+// highest-priority enabled thread runs - workers, then the request manager loop, then the other clients in
+// ascending order - and client1 only when nothing else can run.
+func c12DirectedChooser(nClients int) func(e *vsched.Exec, enabled []int, from *vsched.Thread) int {
+	atSend := false
+	return func(e *vsched.Exec, enabled []int, from *vsched.Thread) int {
+		c1 := e.Threads[1]
+		if !atSend {
+			if c1.PendingKind() == vsched.KSend {
+				atSend = true
+			} else {
+				for i, id := range enabled {
+					if id == 1 {
+						return i
+					}
+				}
+			}
+		}
+		rank := func(id int) int {
+			switch {
+			case id == 1:
+				return 1 << 30
+			case id > nClients: // workers (spawned after the adopted request manager loop)
+				return 0
+			case id == nClients: // the request manager loop (adopted right after the harness threads)
+				return 1
+			}
+			return 2 + id
+		}
+		best := 0
+		for i, id := range enabled {
+			if rank(id) < rank(enabled[best]) {
+				best = i
+			}
+		}
+		return best
 	}
 }
 
@@ -254,6 +343,26 @@ func c12Linearizable(calls [][]*c12Call, final string) bool {
 	return rec(m)
 }
 
+// c12RunDirected runs the one directed schedule of a Directed scenario (shard 0 only).
+func c12RunDirected(c *core.Ctx, sc *c12Scenario) {
+	if c.Shard != 0 {
+		return
+	}
+	x, v, out, div := core.RunSchedule(sc.build(0), nil)
+	c.Res.States++
+	c.Res.Traces++
+	c.Res.Transitions += int64(len(x.Trace))
+	c.Res.Outcome("directed:" + out)
+	c.Res.Bound["c12/"+sc.Name] = "one directed schedule with the real channel capacity (validation of the small-capacity search)"
+	if div != "" {
+		c.Res.Nondet = append(c.Res.Nondet, "c12/"+sc.Name+": "+div)
+	}
+	if v != nil {
+		v.Replay = map[string]any{"params": sc.Name, "choices": x.Choices}
+		c.Res.Violate(v)
+	}
+}
+
 func init() {
 	core.Register(&core.Driver{
 		Prop: "C12",
@@ -277,6 +386,10 @@ func init() {
 			for _, sc := range c12Scenarios(c.Thorough()) {
 				if c.Expired() {
 					return
+				}
+				if sc.Directed {
+					c12RunDirected(c, sc)
+					continue
 				}
 				core.ExploreSched(c, sc.build(bound))
 			}
